@@ -12,7 +12,7 @@ cmd   `su;<dict>`  `rc;<dict>`  `cf;<optdict>`  `wi;<dict>`  `es;<0|1>;<name>;<s
 
 observation  `<out>#<core>#<cmdline>#<intro>`
   out      `ok` | `ok;top:n=v,…` (the get_option values of a (re)configuration, sorted) | `fail`
-  core     `-` | `eff:k=v,…;own:k=v,…;aug:k=v,…;yield:k,…`      (sorted; keys `top:n` / `sub:n`)
+  core     `-` | `eff:k=v,…;own:k=v,…;aug:k=v,…;yield:k,…;stale:k,…`      (sorted; keys `top:n` / `sub:n`)
   cmdline  `-` | `k=v,…` in file order
   intro    `-` | `k=v,…` sorted (rows of mintro._list_buildoptions: effective values, augments as rows)
 Values are printed as plain text (the harness only uses [A-Za-z0-9_] in names and values).
@@ -65,7 +65,12 @@ def showCore (c : Core) : String :=
   "eff:" ++ join ((pk ++ wlKeys).map (fun k => showK k ++ "=" ++ showR (getValueFor s k))) ++
   ";own:" ++ join (pk.filterMap (fun k => (alookup k s.options).bind (fun id => s.heap[id]?.map (fun o => showK k ++ "=" ++ showV o.value)))) ++
   ";aug:" ++ join (s.augments.map (fun p => showK p.1 ++ "=" ++ showV p.2)) ++
-  ";yield:" ++ join (pk.filterMap (fun k => (alookup k s.options).bind (fun id => s.heap[id]?.bind (fun o => if o.yielding then some (showK k) else none))))
+  ";yield:" ++ join (pk.filterMap (fun k => (alookup k s.options).bind (fun id => s.heap[id]?.bind (fun o => if o.yielding then some (showK k) else none)))) ++
+  -- options whose parent pointer is not the object registered under the top-level key (`ParentCurrent` violated)
+  ";stale:" ++ join (pk.filterMap (fun k => (alookup k s.options).bind (fun id => s.heap[id]?.bind (fun o =>
+    match o.parent with
+    | some pid => if alookup k.asRoot s.options == some pid then none else some (showK k)
+    | none => none))))
 
 /-- `mintro._list_buildoptions`: the value a row shows — the parent's value for an inheriting option with a parent,
 else the own value; an augment under the same key wins -/
